@@ -25,24 +25,34 @@ SIMS = ("_step_simulator", "_skip_simulator")
 _cache: Dict[str, Dict] = {}
 
 
+TF_MINUTES = {"1m": 1, "3m": 3, "5m": 5, "15m": 15, "30m": 30, "45m": 45, "1h": 60, "2h": 120, "3h": 180, "4h": 240, "6h": 360, "8h": 480, "12h": 720,
+              "1D": 1440, "3D": 4320, "1W": 10080}
+
+
 def minutes_of(tf: str) -> int:
-    return {"1m": 1, "3m": 3, "5m": 5, "15m": 15}[tf]
+    return TF_MINUTES[tf]
+
+
+# the fast simulator's chunking for every session length 1..13 and chunk lengths 1 / 3 / 5 (one symbol: the chunk is the route timeframe)
+PARTITION_SESSIONS = [dict(name=f"one symbol, {tf}, {n} minute(s)", symbols=("AAA-USDT",), minutes=n, timeframe=tf) for tf in ("1m", "3m", "5m") for n in range(1, 14)]
 
 
 def tag(sym: str) -> str:
     return sym.split("-")[0].lower()
 
 
-def sessions(repo):
-    key = repo.root if hasattr(repo, "root") else id(repo)
-    if key not in _cache:
-        out = {}
-        for cfg in SESSIONS:
-            kw = {k: v for k, v in cfg.items() if k != "name"}
-            for sim in SIMS:
-                out[(cfg["name"], sim)] = (cfg, MS.run(repo, sim, **kw))
-        _cache[key] = out
-    return _cache[key]
+def sessions(repo, cfgs=None, sims=SIMS):
+    cfgs = SESSIONS if cfgs is None else cfgs
+    root = repo.root if hasattr(repo, "root") else id(repo)
+    out = {}
+    for cfg in cfgs:
+        kw = {k: v for k, v in cfg.items() if k != "name"}
+        for sim in sims:
+            key = (root, cfg["name"], sim)
+            if key not in _cache:
+                _cache[key] = (cfg, MS.run(repo, sim, **kw))
+            out[(cfg["name"], sim)] = _cache[key]
+    return out
 
 
 def blocks(events) -> List[Dict]:
@@ -66,24 +76,24 @@ def proto(evs) -> List[Tuple]:
     return [e for e in evs if e[0] in ("exec", "prune", "flush", "terminate", "sample")]
 
 
-def raised(repo, rep, rid) -> set:
+def raised(repo, rep, rid, cfgs=None, sims=SIMS) -> set:
     """sessions in which the simulator raises: reported once per rule that looks at them, and skipped by it"""
     out = set()
-    for (name, sim), (cfg, ses) in sessions(repo).items():
+    for (name, sim), (cfg, ses) in sessions(repo, cfgs, sims).items():
         r = [e for e in ses.events if e[0] == "raise"]
         if r:
             out.add((name, sim))
-            rep.violation(rid, f"{sim}|raises", f"{sim} ({name}): the simulator raises {r[0][1]} (the other simulator completes the session)" if not any(
-                e[0] == "raise" for e in sessions(repo)[(name, [x for x in SIMS if x != sim][0])][1].events) else f"{sim} ({name}): the simulator raises {r[0][1]}")
+            rep.violation(rid, f"{sim}|raises", f"{sim} ({name}): the simulator raises {r[0][1]}")
+            rep.instance(rid, f"{sim}|{name}|raises")
     return out
 
 
 # ---------------------------------------------------------------------------------------------------- rules
-def check_cover(repo, rep, rid):
+def check_cover(repo, rep, rid, cfgs=None, sims=SIMS):
     """S1: every symbol's minutes are fed to the matcher exactly once, in order, minute-major across symbols"""
     n = 0
-    skip = raised(repo, rep, rid)
-    for (name, sim), (cfg, ses) in sessions(repo).items():
+    skip = raised(repo, rep, rid, cfgs, sims)
+    for (name, sim), (cfg, ses) in sessions(repo, cfgs, sims).items():
         if (name, sim) in skip:
             continue
         syms = tuple(cfg["symbols"]) + tuple(cfg.get("data_symbols", ()))
@@ -112,15 +122,15 @@ def check_cover(repo, rep, rid):
                               f"symbol by a hook at minute m is matched against that symbol's earlier minutes (executed before it was submitted) or misses its later ones, and "
                               f"the other symbols' candles and prices seen by a hook are up to a chunk off")
         rep.instance(rid, f"{sim}|{name}", {"session": name, "simulator": sim, "matcher_calls": calls})
-    rep.floor(rid, 2 * len(SESSIONS))
+    rep.floor(rid, len(sims) * len(SESSIONS if cfgs is None else cfgs))
     return n
 
 
-def check_fed_candles(repo, rep, rid):
+def check_fed_candles(repo, rep, rid, cfgs=None, sims=SIMS):
     """S2: what the matcher gets for minute m of a symbol is that symbol's input candle m, gap-normalised against candle m-1 of the
     same symbol (m > 0) - exactly once"""
-    skip = raised(repo, rep, rid)
-    for (name, sim), (cfg, ses) in sessions(repo).items():
+    skip = raised(repo, rep, rid, cfgs, sims)
+    for (name, sim), (cfg, ses) in sessions(repo, cfgs, sims).items():
         if (name, sim) in skip:
             continue
         bad = None
@@ -145,7 +155,7 @@ def check_fed_candles(repo, rep, rid):
         if bad:
             rep.violation(rid, f"{sim}|fed-candle", f"{sim} ({name}): {bad}")
         rep.instance(rid, f"{sim}|{name}")
-    rep.floor(rid, 2 * len(SESSIONS))
+    rep.floor(rid, len(sims) * len(SESSIONS if cfgs is None else cfgs))
 
 
 def expected_protocol(cfg, end) -> List[Tuple]:
@@ -159,14 +169,14 @@ def expected_protocol(cfg, end) -> List[Tuple]:
     return out
 
 
-def check_protocol(repo, rep, rid, what="full"):
+def check_protocol(repo, rep, rid, what="full", cfgs=None, sims=SIMS):
     """S3: at the end of every minute that the simulator itself steps over (every minute with several symbols or in the normal
     simulator; every chunk end otherwise): nothing of the protocol happens before all symbols have been matched; then, route by
     route, the strategy executes iff its candle closed at that minute and the route's active-order list is pruned; then the
     pending MARKET orders are executed.  After the last minute: every strategy terminates, each followed by a flush, and the
     finishing sample is the last event."""
-    skip = raised(repo, rep, rid)
-    for (name, sim), (cfg, ses) in sessions(repo).items():
+    skip = raised(repo, rep, rid, cfgs, sims)
+    for (name, sim), (cfg, ses) in sessions(repo, cfgs, sims).items():
         if (name, sim) in skip:
             continue
         bl = blocks(ses.events)
@@ -204,7 +214,7 @@ def check_protocol(repo, rep, rid, what="full"):
                           f"{sim} ({name}): {bad} - per route: execute the strategy iff its candle closed, prune the route's active orders; then execute the pending MARKET "
                           f"orders (so that a MARKET order is filled before any later candle is processed and executed orders are not listed as active any more)")
         rep.instance(rid, f"{sim}|{name}", {"session": name, "simulator": sim, "blocks": [(b["end"], [list(map(str, e)) for e in proto(b["events"])]) for b in bl]})
-    rep.floor(rid, 2 * len(SESSIONS))
+    rep.floor(rid, len(sims) * len(SESSIONS if cfgs is None else cfgs))
 
 
 def check_same_protocol(repo, rep, rid):
@@ -214,6 +224,7 @@ def check_same_protocol(repo, rep, rid):
     for cfg in SESSIONS:
         name = cfg["name"]
         if any((name, sim) in skip for sim in SIMS):
+            rep.instance(rid, name + "|raises")
             continue
         pre = {sim: [e for e in ss[(name, sim)][1].events[:next((i for i, e in enumerate(ss[(name, sim)][1].events) if e[0] == "match"), 0)] if e[0] in ("prepare", "sample")] for sim in SIMS}
         if pre[SIMS[0]] != pre[SIMS[1]] or ("sample", True) not in pre[SIMS[0]]:
@@ -232,12 +243,12 @@ def check_same_protocol(repo, rep, rid):
     rep.floor(rid, len(SESSIONS))
 
 
-def check_generation(repo, rep, rid):
+def check_generation(repo, rep, rid, cfgs=None, sims=SIMS):
     """S4: every completed window of a route timeframe is generated exactly once per symbol, from exactly the window's 1m candles of
     that symbol, after the symbol's last minute of the window has been matched and before any strategy runs; nothing is
     generated from candles of minutes that have not been matched yet"""
-    skip = raised(repo, rep, rid)
-    for (name, sim), (cfg, ses) in sessions(repo).items():
+    skip = raised(repo, rep, rid, cfgs, sims)
+    for (name, sim), (cfg, ses) in sessions(repo, cfgs, sims).items():
         if (name, sim) in skip:
             continue
         tf = cfg["timeframe"]
@@ -288,4 +299,4 @@ def check_generation(repo, rep, rid):
         if bad:
             rep.violation(rid, f"{sim}|window-generation", f"{sim} ({name}): {bad}")
         rep.instance(rid, f"{sim}|{name}", {"generated": sorted(gens)})
-    rep.floor(rid, 2 * len(SESSIONS))
+    rep.floor(rid, len(sims) * len(SESSIONS if cfgs is None else cfgs))
